@@ -21,6 +21,7 @@ class CaseTimeout(BaseException):
 
 class _State:
     depth = 0  # >0 while an oracle is running
+    nest = 0  # number of monitored library calls currently on the stack (0 inside a post-condition = outermost call)
     ctx = None  # current run context (vf.runner.Ctx)
     installed: list[tuple[Any, str, Any]] = []  # for uninstall
     counts: Counter = Counter()  # monitor name -> events observed
@@ -63,11 +64,14 @@ def _make_wrapper(orig: Callable, mon_name: str, post: Callable | None, on_exc: 
                 _note_error(mon_name)
             finally:
                 STATE.depth -= 1
+        STATE.nest += 1
         try:
             result = orig(*args, **kwargs)
         except CaseTimeout:
+            STATE.nest = 0
             raise
         except BaseException as exc:  # noqa: BLE001 - observed, re-raised unchanged
+            STATE.nest -= 1
             if on_exc is not None and isinstance(exc, Exception):
                 STATE.depth += 1
                 try:
@@ -81,6 +85,7 @@ def _make_wrapper(orig: Callable, mon_name: str, post: Callable | None, on_exc: 
                 finally:
                     STATE.depth -= 1
             raise
+        STATE.nest -= 1
         if post is not None and result is not NotImplemented:
             STATE.depth += 1
             try:
